@@ -740,6 +740,63 @@ pub fn gen_pipe_drop_sweep(rng: &mut Rng) -> Program {
     finish(prog, &g)
 }
 
+/// C07 / C08: every pool thread is inside a job that awaits a future of another, untouched object.  Nobody else can run
+/// those objects' queues: the polling (pool) thread has to, or everything deadlocks.
+pub fn gen_nested_saturated(rng: &mut Rng) -> Program {
+    let pool_max = rng.range(1, 3) as usize;
+    let n_objs = pool_max * 2 + rng.below(2) as usize;
+    let mut g = Gen::new(rng, n_objs);
+    let mut threads = vec![];
+    for i in 0..pool_max {
+        let inner_o = pool_max + i;
+        let mut inner_body = vec![];
+        if g.rng.permille(400) {
+            inner_body.push(Step::Yield(1));
+        }
+        if g.rng.permille(250) {
+            let gate = g.gate();
+            inner_body.push(Step::AwaitGate(gate));
+        }
+        let inner = {
+            let k = if g.rng.permille(500) {
+                OpKind::FutureSync { o: inner_o, body: inner_body, h: usize::MAX }
+            } else {
+                OpKind::FutureDesync { o: inner_o, body: inner_body, h: usize::MAX }
+            };
+            g.op(k)
+        };
+        let mut body = vec![];
+        if g.rng.permille(300) {
+            body.push(Step::Yield(1));
+        }
+        // sometimes work is already queued on the inner object (scheduled from inside the job, so only this thread knows about it)
+        if g.rng.permille(300) {
+            let pre = { let __k = OpKind::Desync { o: inner_o, body: vec![] }; g.op(__k) };
+            body.push(Step::Nested(Box::new(pre)));
+        }
+        body.push(Step::Nested(Box::new(inner)));
+        let h = g.handle();
+        let mut t = vec![{ let __k = OpKind::FutureDesync { o: i, body, h }; g.op(__k) }];
+        t.push(match g.rng.below(3) {
+            0 => { let __k = OpKind::Detach { h }; g.op(__k) }
+            1 => { let __k = OpKind::Yield(2); g.op(__k) }
+            _ => { let __k = OpKind::Yield(1); g.op(__k) }
+        });
+        threads.push(t);
+    }
+    // an ordinary caller as well, now and then
+    if n_objs > pool_max * 2 && g.rng.permille(500) {
+        let o = pool_max * 2;
+        let h = g.handle();
+        threads.push(vec![{ let __k = OpKind::FutureSync { o, body: vec![], h }; g.op(__k) }, { let __k = OpKind::Await { h }; g.op(__k) }]);
+    }
+    let envg = if g.n_gates > 0 { g.env_gates(2) } else { vec![] };
+    let mut prog = base_program(pool_max, n_objs);
+    prog.prespawn = g.rng.permille(300);
+    prog.phases = vec![Phase { ctl: vec![], threads, env_gates: envg, env_streams: vec![] }];
+    finish(prog, &g)
+}
+
 /// C11: the last owner of the target is released at every scheduling point of the context that polls the input,
 /// through bursts long enough to reach whatever the pipe does per batch of items.
 pub fn gen_pipe_in_drop_sweep(rng: &mut Rng) -> Program {
